@@ -16,6 +16,9 @@ Zipped(t, rs, cs) == LET ri == RowIdx(rs, t.sh[1])  cols == SColsOf(t.sp, ColSpa
 Clause(e) ==
   LET t == Tab(e.ins[1]) IN
   IF e.a # "set" /\ e.ins_after # e.ins THEN "operand-changed"
+  \* frame: no other table of the heap changes (results never alias other objects), and the two views of an object agree
+  ELSE IF Has(e, "others") /\ e.others_after # e.others THEN "unrelated-table-changed"
+  ELSE IF Has(e, "ins_after_co") /\ e.ins_after_co # e.ins_after THEN "coordinates-view-differs-from-tensor"
   ELSE CASE e.a = "roundtrip" ->
          IF Failed(e) THEN "roundtrip-failed"
          ELSE IF ~TabEq(Tab(e.out), FromCoords(t, e.names)) THEN "from-coordinates"
@@ -39,6 +42,8 @@ Clause(e) ==
     [] e.a = "repeat" -> IF Len(t.sh) # 1 THEN "ok" ELSE IF Failed(e) THEN "repeat-failed" ELSE IF ~TabEq(Tab(e.out), Repeat(t, e.n)) THEN "repeat" ELSE "ok"
     [] e.a = "unsq" -> IF Len(t.sh) # 1 THEN "ok" ELSE IF Failed(e) THEN "unsqueeze-failed" ELSE IF ~TabEq(Tab(e.out), Unsq(t, IF e.n = 0 THEN 0 ELSE 1)) THEN "unsqueeze" ELSE "ok"
     [] e.a = "arith" -> IF ~ArithValid(t, Tab(e.ins[2])) THEN "ok" ELSE IF Failed(e) THEN "arith-failed" ELSE IF ~TabEq(Tab(e.out), Arith(t, Tab(e.ins[2]), e.opname)) THEN "arith" ELSE "ok"
+    [] e.a = "to" -> IF Failed(e) THEN "to-failed"
+                     ELSE IF \E i \in DOMAIN e.dt : e.dt[i] # (IF e.n = 32 THEN "torch.float32" ELSE "torch.float64") THEN "dtype-after-to" ELSE "ok"
     [] e.a = "eq" -> IF Failed(e) THEN "eq-failed" ELSE IF e.eq # TEq(t, Tab(e.ins[2])) THEN "equality" ELSE "ok"
     [] e.a = "space" ->
          LET u == Tab(e.ins[2]) IN
